@@ -147,6 +147,7 @@ type FnGen struct {
 	witnesses []*Term
 	// number of heap havocs so far
 	havocCount int
+	fspec      *frameSpec
 	// non-escaping local cells of the function under verification
 	stackCells []stackCell
 }
@@ -204,6 +205,7 @@ func (fg *FnGen) assume(t *Term) {
 	if t == nil || t == True {
 		return
 	}
+	noteRefAge(t)
 	// identical assumptions (e.g. the post of a pure function applied to the same arguments again) are kept once;
 	// the index is rebuilt when the list was truncated by a contract evaluation under a binder
 	if fg.assumeSeen == nil || fg.assumeSeenLen > len(fg.assumes) {
@@ -386,20 +388,31 @@ func (fg *FnGen) havocSet(st *State, names map[string]bool) *State {
 func (fg *FnGen) fieldVar(structT types.Type, st *types.Struct, idx int) (string, string) {
 	name := fg.g.ti.structName(structT, st)
 	f := st.Field(idx)
-	return "H:" + name + "." + f.Name(), ArraySort(SInt, fg.g.ti.sortOf(f.Type()))
+	return fg.known("H:"+name+"."+f.Name(), ArraySort(SInt, fg.g.ti.sortOf(f.Type())))
+}
+
+// known records the sort of a heap variable as soon as it is named (write-set computations name variables before any
+// state lookup does).
+func (fg *FnGen) known(name, sort string) (string, string) {
+	if _, ok := fg.stateSorts[name]; !ok {
+		fg.stateSorts[name] = sort
+	}
+	return name, sort
 }
 
 func (fg *FnGen) cellVar(elem types.Type) (string, string) {
 	s := fg.g.ti.sortOf(elem)
-	return "HP:" + sanitize(s), ArraySort(SInt, s)
+	return fg.known("HP:"+sanitize(s), ArraySort(SInt, s))
 }
 
 func (fg *FnGen) memVar(elem types.Type) (string, string, bool) {
 	if b, ok := elem.Underlying().(*types.Basic); ok && b.Kind() == types.Uint8 {
+		fg.known("MemB", ArraySort(SInt, SString))
 		return "MemB", ArraySort(SInt, SString), true
 	}
 	s := fg.g.ti.sortOf(elem)
-	return "Mem:" + sanitize(s), ArraySort(SInt, ArraySort(SInt, s)), false
+	n, srt := fg.known("Mem:"+sanitize(s), ArraySort(SInt, ArraySort(SInt, s)))
+	return n, srt, false
 }
 
 // ---------------------------------------------------------------- loops
@@ -710,6 +723,8 @@ func (fg *FnGen) enterLoop(fr *Frame, li *loopInfo, st *State) *State {
 	}
 	// built-in range facts
 	fg.rangeFacts(fr, li, hst)
+	// the function's frame condition, carried as an invariant for the heap variables the loop writes
+	fg.assumeLoopFrame(fr, li, hst)
 	return hst
 }
 
@@ -838,6 +853,7 @@ func (fg *FnGen) checkInvariants(fr *Frame, li *loopInfo, from *ssa.BasicBlock, 
 			o.clause = c
 		}
 	}
+	fg.checkLoopFrame(fr, li, from, st, which, guard)
 }
 
 // ---------------------------------------------------------------- values
